@@ -118,7 +118,7 @@ def singles(base: dict, numbers=None):
             out.append(("default", f"out{o}.default={d}", _set(("outputs", o, "default"), d)))
     for b in range(n_blocks):
         out.append(("flag", f"block{b}.enabled=False", _set(("blocks", b, "enabled"), False)))
-    for lo, hi in ((-INF, INF), (0.0, INF), (-1.5, 2.25), (0.125, 0.75)):
+    for lo, hi in ((-INF, INF), (0.0, INF), (-1.5, 2.25), (0.125, 0.75), (1.0, 0.0), (10.0, -10.0), (0.5, 0.5)):  # incl. descending and zero-width
         def rng(r, lo=lo, hi=hi):
             r["inputs"][0]["min"], r["inputs"][0]["max"] = lo, hi
         out.append(("range", f"in0.range=({lo},{hi})", rng))
